@@ -171,6 +171,19 @@ func envInt(name string, def int) int {
 	return def
 }
 
+func sortedCounts(m map[string]int) string {
+	keys := make([]string, 0, len(m))
+	for k := range m {
+		keys = append(keys, k)
+	}
+	sort.Strings(keys)
+	var b strings.Builder
+	for _, k := range keys {
+		fmt.Fprintf(&b, "%s:%d,", k, m[k])
+	}
+	return b.String()
+}
+
 func envU64(name string, def uint64) uint64 {
 	if v := os.Getenv(name); v != "" {
 		if n, err := strconv.ParseUint(v, 10, 64); err == nil {
@@ -283,9 +296,24 @@ func WorkerMain(t *testing.T, props map[string]*Prop) {
 	hashes := map[uint64]struct{}{}
 	const hashCap = 400000
 	start := time.Now()
+	var traceLog *os.File
+	if path := os.Getenv("VERIF_TRACE_LOG"); path != "" {
+		// Determinism self-test: one line per evaluated case with everything
+		// that must be a pure function of the seed.
+		traceLog, _ = os.Create(path)
+		defer traceLog.Close()
+	}
 	account := func(o *Outcome, tape *Tape) {
 		rep.Evaluations++
 		Progress.Add(1)
+		if traceLog != nil {
+			sig := ""
+			if o.Violation != nil {
+				sig = o.Violation.Signature
+			}
+			fmt.Fprintf(traceLog, "w%d n%d draws=%016x sched=%016x steps=%d bucket=%q faults=%s probes=%s violation=%q\n",
+				worker, rep.Evaluations, tape.Hash(), o.TraceHash, o.Steps, o.Bucket, sortedCounts(o.Faults), sortedCounts(o.Probes), sig)
+		}
 		for k, v := range o.Faults {
 			rep.Faults[k] += v
 		}
